@@ -1,7 +1,7 @@
 (** C02 -- parsing untrusted bytes is total and memory-safe: property theorems only.
     Each theorem is closed by [exact]/short glue from lemmas of [Proofs_C02], and followed by
     [Print Assumptions]. *)
-From Sci Require Import Wire.Views Wire.Spec_C02 Wire.Proofs_C02.
+From Sci Require Import Wire.Views Wire.Spec_C02 Wire.Proofs_C02 Wire.Proofs_C02b Wire.Proofs_C02c.
 Local Open Scope N_scope.
 
 (** For every view type and EVERY byte string: the size a view constructor reports as the
@@ -88,6 +88,75 @@ Theorem size_determining_setters_are_unsafe :
         ++ ScmpTracerouteRequestMessageView_safe_writes ++ ScmpTracerouteReplyMessageView_safe_writes) = true.
 Proof. vm_compute. repeat split; reflexivity. Qed.
 Print Assumptions size_determining_setters_are_unsafe.
+
+(** Re-validation after ANY sequence of safe mutators gives the same size: for a view [v]
+    (bytes the constructor accepted with exactly their length) every sequence of operations in
+    [layout_preserving_op] leaves [required_size] at [Ok (length v)] -- proved at bit level
+    ([read_write_disjoint]): no covered setter touches a bit the constructor reads.
+    Covered: every safe mutator of InfoFieldView, HopFieldView, OneHopPathView, the typed SCMP
+    message views, StandardPathView (set_curr_*, info_field_mut / hop_field_mut setters),
+    ScmpPayloadView (set_code, set_checksum, every message_mut() setter incl. payload bytes),
+    UdpDatagramView except set_length, ScionHeaderView's scalar setters except set_version.
+    The two exceptions are deliberate in the code: they rewrite a field the CONSTRUCTOR reads
+    (version check, UDP length) but no accessor re-derives an extent from them (the view is a
+    fat pointer); [Findings_C02] has the witnesses.
+    PARTIAL: ScionHeaderView::path_mut() setters and the three packet views' header_mut() /
+    payload_mut() are covered by the extent theorem and the correspondence check only. *)
+Theorem safe_setters_preserve_layout_partial :
+  forall (k : vkind) (ms : list (N * N * N)) (v v' : bytes),
+    forallb (fun m => layout_preserving_op k (fst (fst m))) ms = true ->
+    bytes_ok v = true -> required_size k v = Ok (blen v) -> run_muts k ms v = Ok v' ->
+    required_size k v' = Ok (blen v') /\ blen v' = blen v /\ bytes_ok v' = true.
+Proof. exact run_muts_preserve. Qed.
+Print Assumptions safe_setters_preserve_layout_partial.
+
+(** Variable-offset accessors stay inside the view, for every accepted byte string:
+    StandardPathView's checked_info_field_range / checked_hop_field_range (info_field(i),
+    hop_field(i) for EVERY index i, curr_info_field, curr_hop_field), info_fields(),
+    hop_fields(), the counts and calculate_segment_index; ScionHeaderView's dst_host_addr,
+    src_host_addr, path(), header_len; header() and payload() of the three packet views; and
+    udp() / scmp() of the typed packet views -- their expect() cannot fail on a constructed
+    view.
+    PARTIAL with respect to "every safe accessor": accessors composed of these (fields of a
+    hop field reached through header.path(), expiration(), segments(), dst_port()'s parse of
+    the quoted packet, try_as_udp / try_as_scmp) are covered by the correspondence check. *)
+Theorem variable_offset_accessors_in_bounds_partial :
+  (forall v id arg, required_size_stdpath v = Ok (blen v) -> In id [7; 8; 9; 10; 11; 12; 5; 6; 15] ->
+     is_panic (acc_stdpath id arg v) = false)
+  /\ (forall b n id arg, required_size_header b = Ok n -> In id [15; 16; 17; 5] ->
+     is_panic (acc_header id arg (sub b 0 n)) = false)
+  /\ (forall k b n id arg, (k = KRaw \/ k = KUdpPkt \/ k = KScmpPkt) -> required_size k b = Ok n -> (id = 0 \/ id = 1) ->
+     is_panic (acc_pkt k id arg (sub b 0 n)) = false)
+  /\ (forall b n, required_size KUdpPkt b = Ok n -> is_panic (acc_pkt KUdpPkt 10 0 (sub b 0 n)) = false)
+  /\ (forall b n, required_size KScmpPkt b = Ok n -> is_panic (acc_pkt KScmpPkt 10 0 (sub b 0 n)) = false).
+Proof.
+  refine (conj _ (conj _ (conj _ (conj _ _)))).
+  - intros; eapply acc_stdpath_ranges_np; eassumption.
+  - intros; eapply header_host_path_np; eassumption.
+  - intros; eapply pkt_common_acc_np; eassumption.
+  - exact udp_pkt_udp_np.
+  - exact scmp_pkt_scmp_np.
+Qed.
+Print Assumptions variable_offset_accessors_in_bounds_partial.
+
+(** the slices these accessors hand out lie inside the view (ranges, not only absence of a
+    panic): hop / info field ranges of a standard path view *)
+Theorem std_path_field_ranges_in_view :
+  forall v, required_size_stdpath v = Ok (blen v) ->
+    (forall i, exists o, sp_hop_field_range v i = Ok o /\
+       match o with Some p => Spec_C02.range_in_view (blen v) p = true /\ snd p - fst p = 12 | None => True end)
+    /\ (forall i, exists o, sp_info_field_range v i = Ok o /\
+       match o with Some p => Spec_C02.range_in_view (blen v) p = true /\ snd p - fst p = 8 | None => True end).
+Proof.
+  intros v Hv. destruct (sp_ranges_in_view v Hv) as (Hh & Hi & _ & _). split; intros i.
+  - destruct (Hh i) as (o & E & P). exists o. split; [exact E|]. destruct o as [p|]; [|exact I].
+    destruct P as (P1 & P2 & P3). split; [|exact P3]. unfold Spec_C02.range_in_view.
+    apply Bool.andb_true_iff. split; apply N.leb_le; assumption.
+  - destruct (Hi i) as (o & E & P). exists o. split; [exact E|]. destruct o as [p|]; [|exact I].
+    destruct P as (P1 & P2 & P3). split; [|exact P3]. unfold Spec_C02.range_in_view.
+    apply Bool.andb_true_iff. split; apply N.leb_le; assumption.
+Qed.
+Print Assumptions std_path_field_ranges_in_view.
 
 (** non-vacuity: a 48-byte SCION/UDP packet is accepted by the three packet constructors *)
 Example accepted_packet :
